@@ -128,6 +128,16 @@ def propose(w: S.SWorld, rng: random.Random, prof: Profile):
             and not (p.task or p.pre_task).done() and not p.in_start_join]
     if live:
         cands.append((W["nativecancel"], (S.NATIVECANCEL, rng.choice(live), 0, 0)))
+        # the "keep cancelling until it is gone" idiom of foreign code: a task that has just reacted to a native
+        # cancellation is natively cancelled again straight away
+        ops = w.ops
+        if W["nativecancel"] > 0 and len(ops) >= 8 and ops[-4] in (S.RUNSTEP, S.RUNWAKE) and ops[-8] == S.NATIVECANCEL \
+                and ops[-7] == ops[-3] and ops[-3] in live:
+            cands.append((W["nativecancel"] * 25 + 2.0, (S.NATIVECANCEL, ops[-3], 0, 0)))
+        # ... and a host that has just been woken inside a group's __aexit__ and is still in there
+        if W["nativecancel"] > 0 and len(ops) >= 4 and ops[-4] in (S.RUNSTEP, S.RUNWAKE) and ops[-3] in live \
+                and w.puppets[ops[-3]].pending_op == S.GEXIT:
+            cands.append((W["nativecancel"] * 25 + 1.0, (S.NATIVECANCEL, ops[-3], 0, 0)))
     nroots = sum(1 for p in w.puppets.values() if not p.spawned)
     if nroots < 2 and len(w.puppets) < W["max_tasks"]:
         cands.append((W["newroot"], (S.NEWROOT, 0, 0, 0)))
